@@ -282,3 +282,26 @@ class Subject:
                 out.append(a.proto())
         out.append("END")
         return out
+
+
+# ---- (de)serialisation for replay files ----
+def to_json(s: Subject) -> dict:
+    from dataclasses import asdict
+    return asdict(s)
+
+
+def from_json(d: dict) -> Subject:
+    def va(x):
+        return VAttr(**x)
+
+    def var(x):
+        return Variant(x["ident"], Disc(**x["disc"]), [va(a) for a in x["attrs"]], x["fields"], x["fields_text"])
+
+    def item(x):
+        return Item(x["kind"], x["name"], [Param(**p) for p in x["params"]], x["text"])
+
+    def ea(x):
+        return EAttr(x["kind"], x["name"], [item(i) for i in x["items"]], x["text"])
+
+    return Subject(d["sid"], [ea(a) for a in d["attrs"]], [var(v) for v in d["variants"]], d["kind"], d["vis"],
+                   d["ename"], d["derives"], d["family"], d["note"], d["body_text"])
